@@ -596,10 +596,14 @@ func (txn *Txn) commitAndSend() (func() error, error) {
 	// var b strings.Builder
 	// fmt.Fprintf(&b, "Read: %d. Commit: %d. reads: %v. writes: %v. Keys: ",
 	// 	txn.readTs, commitTs, txn.reads, txn.conflictKeys)
-	for _, e := range txn.pendingWrites {
+	// The entries set aside in duplicateWrites are earlier calls than the pending write of their
+	// key. They go first: an earlier Set (version left to the commit timestamp) and a later
+	// SetEntryAt at exactly that timestamp end up as the same key and version, and the write that
+	// is applied last is the one that stays.
+	for _, e := range txn.duplicateWrites {
 		processEntry(e)
 	}
-	for _, e := range txn.duplicateWrites {
+	for _, e := range txn.pendingWrites {
 		processEntry(e)
 	}
 
